@@ -105,6 +105,7 @@ inductive GRef where
   | grange (a b : Nat)
   | ps (name : String)
   | cls (c : Nat)
+  | pseudo (input : Nat) (realCp : Option Nat) (realGid : Option Nat)   -- pseudo(unicode(cp) | glyphid(g), input)
 deriving Repr, Inhabited
 
 structure ProgIR where
@@ -275,6 +276,7 @@ def parseProgIR (text : String) : Except String ProgIR := do
         | "grange" => pure (GRef.grange (← jNat (← r.getObjVal? "a")) (← jNat (← r.getObjVal? "b")))
         | "ps" => pure (GRef.ps (← (← r.getObjVal? "n").getStr?))
         | "cls" => pure (GRef.cls (← jNat (← r.getObjVal? "c")))
+        | "pseudo" => pure (GRef.pseudo (← jNat (← r.getObjVal? "input")) (← jOptNat (r.getObjValD "cp")) (← jOptNat (r.getObjValD "gid")))
         | _ => throw s!"bad-input: ref kind {k}"
     pure (some a)
   let apj := j.getObjValD "autoPseudo"
